@@ -102,7 +102,7 @@ def binding(run):
     if not hit:
         bad.append("log-lies")
 
-    for name, fn, expect in [("corrupt-balance", corrupt_balance, {"P01_Exact", "Conservation"}), ("flip-ok", flip_ok, {"P01_Exact"}),
+    for name, fn, expect in [("corrupt-balance", corrupt_balance, {"P01_Exact", "Conservation"}), ("flip-ok", flip_ok, {"P01_Exact", "P10_ParserEqualsLedger"}),   # (a claimed success the reference refuses: the parser report no longer matches what moved)
                              ("gas-created", gas_created, {"P06_NoGasCreated"}), ("parser-lies", parser_lies, {"P10_ParserEqualsLedger"}),
                              ("drop-step", drop_step, {"Conservation", "P02_Others", "P05_Frame", "P01_Exact", "P01_FailKeeps"})]:
         dst = os.path.join(run.dir, name + ".ndjson")
